@@ -75,6 +75,11 @@ CLAIMED = {
    text="Proof: for each of the four feature configurations, whenever a marker follows for a ground type from the regenerated impl rows (any instantiation of the generic rows, to any nesting depth, array length or arity), the language oracle guarantees that marker's contract for the type; the proof is generic (oracle monotone in the parameters' facts, contracts are conjunctions of facts) plus a per-row computation that is re-run on the table extracted from the current source, so an added or weakened row that is not sound makes the theorem fail; the lattice is a theorem about the contracts; the unsound_ptr_pod_impl row is refuted. Tie: rustc's own answer (inherent-const-over-trait-const probe) for ~3000 (thorough ~9000) types x 7 markers per configuration - all leaves, every constructor over every leaf, two-level applications, arrays of listed/unlisted/zero length, tuples 1..9, raw/fat pointers, references, fn pointers of every ABI - compared exactly (presence AND absence) with the executable solver over the regenerated table, and every reported impl checked against the oracle by the monitor.",
    note="Trusted: Coq kernel; Model/LangOracle.v - the reading of the Rust reference/std docs (DESIGN.md section 4.1) is the specification here; nightly rustc -Zunpretty=expanded and the table extractor; that a rustc impl is a derivation from the rows (semantics of trait resolution; the census validates it on the universe); host target x86-64 only (SIMD, atomics).",
    ref="5/C04"),
+ "C20": dict(
+   technique="Coq theorems (unbounded): every translated casting function is independent of the feature flags (the two alignment tests agree), and the regenerated impl table under a larger feature set subsumes the one under a smaller set; real builds of feature sets, line-by-line transcript equality across feature sets, census monotonicity",
+   text="Proof: is_aligned_to returns the same result under both implementations for every address and power-of-two alignment, hence every translated try_/panicking cast returns the same outcome under any two feature configurations (track_caller does not occur in any translated body); the marker-impl tables extracted from the macro-expanded source under none / alloc / alloc+align_offset+track_caller / all-stable-sound each subsume the previous one, and every row of each is sound (C04). Decided by the correspondence leg, not by a theorem (partial): 'every sound feature combination builds' - cargo check of every single feature, every pair with extern_crate_alloc, the named sets and seeded random subsets (thorough: all pairs); full castgrid transcripts under both alignment tests (and track_caller in the thorough tier) and allocgrid transcripts with and without alloc_uninit are identical line for line; for every census type the markers under the smaller set are implied by those under the larger.",
+   note="Partial: buildability is a fact about rustc and the whole crate and is explored (not all 2^20 subsets), not proved. nightly_* features and unsound_ptr_pod_impl are outside the property. Trusted: as C02/C04.",
+   ref="5/C20"),
 }
 
 checks = []
